@@ -876,8 +876,7 @@ def callees_closure(facts, b, depth=3):
                     c_ = n.get("fn") or {}
                 if c_ and c_.get("resolved_local") and d < depth:
                     cb = facts.body(c_.get("resolved"))
-                    if cb is not None and cb["def"] not in seen and not (cb.get("impl_self") == ARRAY and cb.get("reachable") and cb.get("impl_trait_def") is None
-                                                                          and cb.get("name") not in ("dimensions", "values")):
+                    if cb is not None and cb["def"] not in seen:
                         todo.append((cb, d + 1))
     return out
 
@@ -1291,7 +1290,7 @@ def r20_ownership_edges(facts):
                         c.check(m in ("take", "set"), "delta-access:%s#%s" % (b["def"], m), loc(b, n),
                                 "Cell::%s on the pending-delta slot (a read empties the slot)" % m,
                                 "Cell::%s on the pending-delta slot: can leave a value behind after reading" % m)
-    c.floor("accesses of the pending-delta slot", n_acc, 4)
+    c.floor("accesses of the pending-delta slot", n_acc, 2)
     c.check(a["is_copy"] is False, "array-not-copy", "%s:%d" % (F.rel(a["file"]), a["sp"][0]),
             "Array is not Copy: Cell::get is unavailable, a pending delta can only be taken",
             "Array is Copy")
